@@ -69,6 +69,16 @@ var targets = []target{
 	{"ed25519", "", "BlindPublicKeyWithContext", "ed_BlindPublicKeyWithContext", true, false},
 	{"ed25519", "", "UnblindPublicKeyWithContext", "ed_UnblindPublicKeyWithContext", true, false},
 	{"ed25519", "", "blindKeySign", "ed_blindKeySign", true, false},
+	// the codecs with hand-rolled framing (C03, C04): TokenChallenge, type 5 request, generic batch request and response list, EncapKey
+	{dir: "tokens", recv: "TokenChallenge", fn: "Marshal", lean: "cd_TokenChallenge_Marshal", full: true, loops: true},
+	{dir: "tokens", recv: "", fn: "UnmarshalTokenChallenge", lean: "cd_UnmarshalTokenChallenge", full: true, loops: true},
+	{dir: "tokens/type5", recv: "BatchedPrivateTokenRequest", fn: "Marshal", lean: "cd_type5_Marshal", full: true, loops: true},
+	{dir: "tokens/type5", recv: "BatchedPrivateTokenRequest", fn: "Unmarshal", lean: "cd_type5_Unmarshal", full: true, loops: true},
+	{dir: "tokens/batched", recv: "BatchedTokenRequest", fn: "Marshal", lean: "cd_batch_Marshal", full: true, loops: true},
+	{dir: "tokens/batched", recv: "BatchedTokenRequest", fn: "Unmarshal", lean: "cd_batch_Unmarshal", full: true, loops: true},
+	{dir: "tokens/batched", recv: "", fn: "UnmarshalBatchedTokenResponses", lean: "cd_UnmarshalBatchedTokenResponses", full: true, loops: true},
+	{dir: "tokens/type3", recv: "EncapKey", fn: "Marshal", lean: "cd_EncapKey_Marshal", full: true, loops: true},
+	{dir: "tokens/type3", recv: "", fn: "UnmarshalEncapKey", lean: "cd_UnmarshalEncapKey", full: true, loops: true},
 	// the digit recodings and the table-driven scalar multiplications of the internal package (C14, C15): every statement and loop header
 	{dir: "ed25519/internal/edwards25519", recv: "Scalar", fn: "signedRadix16", lean: "sc_signedRadix16", full: true, loops: true},
 	{dir: "ed25519/internal/edwards25519", recv: "Scalar", fn: "nonAdjacentForm", lean: "sc_nonAdjacentForm", full: true, loops: true},
@@ -262,11 +272,23 @@ func main() {
 				walk(s.Body)
 				add("}")
 			case *ast.SwitchStmt:
-				add("switch {")
+				if t.loops && s.Tag != nil {
+					add("switch %s {", full(p.fset, s.Tag))
+				} else {
+					add("switch {")
+				}
 				walk(s.Body)
 				add("}")
 			case *ast.CaseClause:
-				add("case:")
+				if t.loops {
+					var cs []string
+					for _, e := range s.List {
+						cs = append(cs, full(p.fset, e))
+					}
+					add("case %s:", strings.Join(cs, ", "))
+				} else {
+					add("case:")
+				}
 				for _, st := range s.Body {
 					walk(st)
 				}
